@@ -374,7 +374,7 @@ fn strat(many_pct: u32) -> impl Strategy<Value = HistCase> {
 pub fn run(ctx: &Ctx, stats: &mut Stats) {
     let c2 = ctx.clone();
     let counters = std::cell::Cell::new((0u64, 0u64));
-    let n = ctx.tier.pick(48, 800);
+    let n = ctx.tier.pick(96, 1600);
     {
         let check = |c: &HistCase| check_in(&c2, c, &counters);
         run_prop(ctx, stats, "histories", n, strat(25), &check);
